@@ -86,6 +86,9 @@ class Dim:
             if nm == "to_u64" and "dimacs" in t[1].key():
                 return "OneBased"
             if nm in ("len", "count"):
+                # the number of entries of a map or set says nothing about the largest key it holds
+                if any(m in t[1].key() for m in ("HashMap", "HashSet", "BTreeMap", "BTreeSet", "FxHashMap")):
+                    return "Entries"
                 return "Count"
             if nm == "num_vars":
                 return "Count"
@@ -155,7 +158,7 @@ def run(prog):
         seen = {}
         for cs in te.calls:
             nm = cs.callee.name
-            if cs.exp:
+            if cs.exp and nm != "from_elem":      # `vec![x; n]` is a std macro: its from_elem call is user code
                 continue
             if nm in COUNT_SINK_CALLS and cs.callee.local or (nm == "new" and "PartialModel" in cs.callee.key()) \
                     or (nm == "from_elem" and len(cs.args) == 2):
@@ -170,6 +173,20 @@ def run(prog):
                 if seen[key] > 1:
                     key += "#%d" % seen[key]
                 n += 1
+                if d == "Entries":
+                    # only a definite error when the table is indexed by label in this very function
+                    loc = cs.dest.get("l") if isinstance(cs.dest, dict) else None
+                    by_label = [c2 for c2 in te.calls if c2.callee.name in ("index", "index_mut") and len(c2.args) == 2 and
+                                D.dim(c2.args[1], fn) == "Index" and loc is not None and
+                                strip(c2.args[0]) in (("mutref", loc), ("ref", loc), ("local", loc))]
+                    if nm == "from_elem" and not by_label:
+                        out.append(inst("IC", key, UNDECIDED, fn, cs.line, "table sized by a number of map entries; not seen indexed by label here"))
+                    else:
+                        out.append(inst("IC", key, VIOLATION, fn, cs.line,
+                                        "a table indexed by variable label is sized by the number of entries of a map (%s): a map "
+                                        "that does not cover the labels 0..len-1 — weights or values for some variables only — "
+                                        "indexes past the end" % show(cs.args[idx])[:60]))
+                    continue
                 out.append(inst("IC", key, OK if d == "Count" else VIOLATION, fn, cs.line,
                                 "table size / variable count argument is a %s: %s" % (d, show(cs.args[idx])[:100])))
             if nm in ("new", "new_usize") and "VarLabel" in cs.callee.key() and cs.args:
